@@ -263,6 +263,13 @@ def instrument(prog: Program) -> Program:
         if not (isinstance(n, tuple) and n and isinstance(n[0], str)):
             return n
         t = n[0]
+        if t == "op" and n[1] == "PopB":
+            # a discarded value becomes an effect: a wrong value that is popped would otherwise stay invisible
+            return ("op", "Log", [go(n[2][0])])
+        if t == "op" and n[1] == "PopU":
+            return ("op", "Log", [("op", "Itob", [go(n[2][0])])])
+        if t == "store":
+            return ("store", n[1], go(n[2]))
         if t == "seq":
             items = n[1]
             if not items:
